@@ -2,6 +2,7 @@ package props
 
 import (
 	"fmt"
+	"math/big"
 	"strings"
 
 	"utilcheck/flow"
@@ -166,12 +167,32 @@ func semErrKind(v pred.Val) string {
 func ruleBitsKey(sym string) func(a, b pred.Val) (string, bool) {
 	return func(a, b pred.Val) (string, bool) {
 		c, ok := b.(pred.Const)
-		if !ok || c.V == nil || c.V.ExactString() != "0" {
+		if !ok || c.V == nil {
 			return "", false
 		}
 		bits, ok := a.(pred.Bits)
 		if !ok {
 			return "", false
+		}
+		if c.V.ExactString() != "0" {
+			// `x&m == m` for a single-bit mask m: the same atom as `x&m != 0`, complemented
+			one := -1
+			for i, bit := range bits.B {
+				switch bit.K {
+				case 's':
+					if bit.Sym != sym || bit.Idx != i || one >= 0 {
+						return "", false
+					}
+					one = i
+				case '0':
+				default:
+					return "", false
+				}
+			}
+			if one < 0 || c.V.ExactString() != new(big.Int).Lsh(big.NewInt(1), uint(one)).String() {
+				return "", false
+			}
+			return fmt.Sprintf("!%s&bits(%d)", sym, one), true
 		}
 		var idx []string
 		for i, bit := range bits.B {
@@ -228,6 +249,8 @@ func ruleSemGate(e *Env, rule, numRule string) {
 			return 0, true, true
 		case (strings.HasPrefix(as, "len((*regexp.Regexp).FindSubmatch(") || strings.HasPrefix(as, "len((*regexp.Regexp).FindStringSubmatch(")) && bs == "0":
 			return 1, true, true
+		case (strings.HasPrefix(as, "(*regexp.Regexp).FindSubmatch(") || strings.HasPrefix(as, "(*regexp.Regexp).FindStringSubmatch(")) && bs == "nil":
+			return 1, true, true // `parts == nil` is the same test as `len(parts) == 0` for a sub-match result
 		}
 		return 0, false, false
 	}
@@ -418,12 +441,7 @@ func ruleC03Skel(e *Env) {
 		if k, ok := bitsKey(a, b); ok {
 			return k, true
 		}
-		if c, ok := b.(pred.Const); ok && c.V != nil && c.V.ExactString() == `""` {
-			if s, ok := a.(pred.Sym); ok {
-				return s.Name + `==""`, true
-			}
-		}
-		return "", false
+		return strEmptyKey(a, b)
 	}
 	mk := func() []pred.Val { return []pred.Val{pred.Sym{Name: "buf"}, symStruct(verT, "v"), pred.Sym{Name: "f"}} }
 	leaves, err := extractTree(e.P.SSA, fn, mk, nil, nil, keyOf, binDomain)
@@ -485,10 +503,10 @@ func ruleC03ValidTable(e *Env) {
 	site := flow.FnName(fn)
 	verT := sp.Type("Ver").Type()
 	keyOf := func(a, b pred.Val) (string, bool) {
+		if k, ok := strEmptyKey(a, b); ok {
+			return k, true
+		}
 		if c, ok := b.(pred.Const); ok && c.V != nil {
-			if s, ok := a.(pred.Sym); ok && c.V.ExactString() == `""` {
-				return s.Name + `==""`, true
-			}
 			if t, ok := a.(pred.Term); ok && strings.HasPrefix(t.Fn, "(*regexp.Regexp).Match") && c.V.ExactString() == "true" {
 				return t.String(), true
 			}
